@@ -20,7 +20,8 @@ RULE = ("classes from the type-directed declaration generator; kwargs streams va
         "settings (_additional_properties, _required, _ignore_none, immutability) are stated on the base only, through 11 entry "
         "kinds (constructor with/without an unknown keyword, missing/None/invalid arguments, Deserializer with an extra key x "
         "keep_undefined, shallow_clone_with_overrides / from_other_class(instance|mapping) with an extra name, assignment of a new "
-        "attribute, copy/deepcopy/clone/cast_to chain); the declaration is checked on the returned instance in Python")
+        "attribute, copy/deepcopy/clone/cast_to chain; the Undefined sentinel given for a required field; keyword / document / mapping "
+        "names equal to the library's per-instance bookkeeping flags next to invalid values); the declaration is checked on the returned instance in Python")
 ASSUMPTIONS = [
     "trusted entry points (from_trusted_data, trust_supplied_values, direct_trusted_mapping) are excluded by the statement",
     "Deserializer as an entry point is covered by C05/C06's suites, not here",
@@ -31,7 +32,11 @@ ASSUMPTIONS = [
 # ---- inheritance (the Lean declarations are flat): class-level settings stated on a BASE only - the statement is
 # executed on the real subclasses (oracle-only cases, no model line)
 ENTRY_KINDS = ["ctor", "ctor-extra", "deser-extra", "clone-extra", "from-other-extra", "from-mapping-extra", "setattr-extra",
-               "ctor-missing", "ctor-none", "ctor-bad", "copy-chain"]
+               "ctor-missing", "ctor-none", "ctor-bad", "copy-chain",
+               # sentinels and bookkeeping names as ARGUMENTS: the Undefined sentinel for a required field, and keyword
+               # names equal to the library's per-instance flags (which switch validation off when set on an instance)
+               "ctor-undefined-required", "ctor-internal-trust", "ctor-internal-skip", "from-mapping-internal", "deser-internal",
+               "clone-internal"]
 
 
 def inherit_cases(rng, n):
@@ -45,8 +50,9 @@ def inherit_cases(rng, n):
     # every entry kind x (flag off on the base) at depth 1 and 2: always run
     for entry in ENTRY_KINDS:
         for depth in (1, 2):
-            out.append({"suite": "inherit", "addl": False, "required_on_base": True, "ignore_none": None, "immutable": False,
-                        "depth": depth, "restate": False, "entry": entry, "keep_undefined": True})
+            for addl in ((False, None, True) if "internal" in entry or "undefined" in entry else (False,)):
+                out.append({"suite": "inherit", "addl": addl, "required_on_base": True, "ignore_none": None, "immutable": False,
+                            "depth": depth, "restate": False, "entry": entry, "keep_undefined": True})
     return out
 
 
@@ -97,13 +103,27 @@ def run_inherit(case):
         elif entry == "setattr-extra":
             x = cls(**good)
             x.zz_extra = 1
+        elif entry == "ctor-undefined-required":
+            from typedpy import Undefined
+            x = cls(a=Undefined, tags=["x"])
+        elif entry == "ctor-internal-trust":
+            x = cls(a=-1, b0="toolong", tags=["x", "y", "z"], _trust_supplied_values=True)
+        elif entry == "ctor-internal-skip":
+            x = cls(a=-1, b0="toolong", tags=["x", "y", "z"], _skip_validation=True)
+        elif entry == "from-mapping-internal":
+            x = cls.from_other_class({"a": -1, "b0": "toolong", "tags": ["x"], "_trust_supplied_values": True}, _skip_validation=True)
+        elif entry == "deser-internal":
+            x = Deserializer(cls).deserialize({"_trust_supplied_values": True, "_skip_validation": True, "a": -1, "b0": "toolong", "tags": ["x"]},
+                                              keep_undefined=case["keep_undefined"])
+        elif entry == "clone-internal":
+            x = cls(**good).shallow_clone_with_overrides(_trust_supplied_values=True, a=-1)
         elif entry == "copy-chain":
             x = copy.deepcopy(copy.copy(cls(**good))).shallow_clone_with_overrides().cast_to(cls)
         else:
             raise AssertionError(entry)
     except Exception as e:
         return {"out": "raised", "exc": type(e).__name__, "documented_exc": isinstance(e, (TypeError, ValueError)), "msg": str(e)[:160]}
-    attrs = {k: v for k, v in x.__dict__.items() if k not in ("_instantiated", "_none_fields", "_trust_supplied_values")}
+    attrs = {k: v for k, v in x.__dict__.items() if k not in ("_instantiated", "_none_fields", "_trust_supplied_values", "_skip_validation")}
     problems = []
     undeclared = sorted(k for k in attrs if k not in names)
     if undeclared and not addl:
